@@ -2,6 +2,21 @@
 """Regenerates MANIFEST.json from the table below (run after adding a check)."""
 import json, subprocess
 CHECKS = {
+ "C07": dict(level="exploration", ref="2/C07",
+   text="Generated histories on tables with PRIMARY KEY / UNIQUE / NOT NULL constraints, key values from a small pool so that collisions, re-inserts after delete/rollback and two-session conflicts are the norm. Two-sided oracle: the model predicts which statements must be rejected and which accepted; independently, after every commit the engine's own SELECT output must contain no duplicate key and no NULL in a NOT NULL column.",
+   note="Trusted: the SQL reference model and workload interpreter; divergences not attributable to the property's own mechanism are abandoned (counted); features with open findings are excluded by construction (counted).", technique="property-based testing: model-based (stateful) histories with shrinking, differential against an in-memory SQL model plus a model-independent invariant on the engine's output"),
+ "C09": dict(level="exploration", ref="2/C09",
+   text="Generated histories split at random points by clean close + open with a different configuration each time (page sizes 4-16 KiB at creation, cache 64-10000, pool 1-4): every table, row and name must equal the model right after each reopen and for the rest of the history (new rows/tables/transactions must not collide with old ones).",
+   note="Trusted: the SQL reference model and workload interpreter; divergences not attributable to the property's own mechanism are abandoned (counted); features with open findings are excluded by construction (counted).", technique="property-based testing: model-based (stateful) histories with shrinking, differential against an in-memory SQL model"),
+ "C11": dict(level="exploration", ref="2/C11 + 1.10",
+   text="SQL histories biased to page churn; at every quiescent point the page auditor (harness/src/audit.rs) walks the catalog trees, every relation's tree from the roots the catalog lists, overflow chains and the free list, and demands exactly one owner per page, ids in range, an acyclic free list consistent with its recorded tail, equal leaf depth and sibling links that mirror the leaf order. The raw-tree part of this property runs under C10.",
+   note="Trusted: the auditor and the logic-free page/catalog facade; Trusted: the SQL reference model and workload interpreter; divergences not attributable to the property's own mechanism are abandoned (counted); features with open findings are excluded by construction (counted).", technique="property-based testing: generated histories with a structural invariant checker over the page graph after every quiescent step"),
+ "C13": dict(level="exploration", ref="2/C13",
+   text="Generated histories with VACUUM at arbitrary points (and update/VACUUM cycles): the model treats VACUUM as a logical no-op, so a fresh read of every table right after each VACUUM and for the rest of the history must equal the model; the page auditor must pass after VACUUM; the database must stay usable.",
+   note="Trusted: the SQL reference model and workload interpreter; divergences not attributable to the property's own mechanism are abandoned (counted); features with open findings are excluded by construction (counted).", technique="property-based testing: model-based (stateful) histories with shrinking, differential against an in-memory SQL model (VACUUM as a metamorphic no-op) plus page-graph invariant"),
+ "C15": dict(level="exploration", ref="2/C15",
+   text="Generated interleavings of CREATE TABLE / CREATE UNIQUE INDEX / ALTER TABLE ADD|DROP COLUMN / DROP TABLE with DML inside committed and rolled-back transactions, names from a pool of three (reuse after drop), followed by reopen; name resolution and SELECT * of every table must equal the model with DDL as versioned state.",
+   note="Trusted: the SQL reference model and workload interpreter; divergences not attributable to the property's own mechanism are abandoned (counted); features with open findings are excluded by construction (counted).", technique="property-based testing: model-based (stateful) histories with shrinking, differential against an in-memory SQL model"),
  "C01": dict(level="fault_enumeration", ref="2/C01 + 1.9",
    text="Each generated history is run once under the I/O tap; every crash point (prefix of the recorded file-mutation stream; the quick tier takes every boundary next to a step end plus every third other one) is turned into an on-disk image, opened and read back: the rows of every transaction acknowledged before the crash point must be there (the one commit in flight may be whole or absent). Crash points of one history are enumerated, histories are sampled. Crash points inside checkpoints and some transaction shapes are excluded by open findings (counted in the evidence).",
    note="Trusted: the crash model (prefixes of the recorded DBFile mutation stream, no torn/reordered writes), the I/O tap hook, the SQL reference model for the acknowledged state; histories whose live run diverges from the model are abandoned and counted.",
